@@ -48,10 +48,13 @@ class MessageExtractor:
                     continue
                 for comment_tag in comment_tags:
                     if value.startswith(comment_tag):
+                        # a new block of translator comments; earlier
+                        # ones belonged to something else
                         in_translator_comments = True
-                        translator_comments.extend(
-                            self._split_comment(node.lineno, value)
+                        translator_comments = self._split_comment(
+                            node.lineno, value
                         )
+                        break
                 continue
 
             if isinstance(node, parsetree.DefTag):
@@ -79,6 +82,8 @@ class MessageExtractor:
             elif isinstance(node, parsetree.Expression):
                 code = node.code.code
             else:
+                # text or any other node ends a block of translator comments
+                in_translator_comments = False
                 continue
 
             # Comments don't apply unless they immediately precede the message
